@@ -482,12 +482,15 @@ func genNoProps(r *hx.Rng) Desc {
 	return d
 }
 
+// size limits of generated meshes (smaller in the quick tier: evaluation cost is dominated by parsing numerals)
+var maxVerts, maxTris = 12, 10
+
 func genDesc(r *hx.Rng) Desc {
 	if r.Chance(3, 100) {
 		return genNoProps(r)
 	}
 	var d Desc
-	d.N = r.Range(1, 12)
+	d.N = r.Range(1, maxVerts)
 	if r.Chance(1, 12) {
 		d.N = 1
 	}
@@ -499,7 +502,7 @@ func genDesc(r *hx.Rng) Desc {
 		}
 	} else {
 		d.Topo = "triangle"
-		nt := r.Range(0, 10)
+		nt := r.Range(0, maxTris)
 		if r.Chance(1, 10) {
 			nt = 0
 		}
@@ -765,6 +768,9 @@ func main() {
 		for _, c := range makeCase(d) {
 			run.Add(c)
 		}
+	}
+	if run.Tier == "quick" {
+		maxVerts, maxTris = 8, 6
 	}
 	r := hx.NewRng(run.Seed)
 	for i := 0; i < run.N; i++ {
